@@ -205,9 +205,9 @@ Definition is_local (r : res) : bool := match r with RLocalR _ => true | _ => fa
 Definition is_nil (r : res) : bool := match r with RNilR => true | _ => false end.
 
 (* walk through the calls: every transaction's envelope and message must arrive as given *)
-Fixpoint next_data (evs : list event) : option (bytes * berr * list event) :=
+Fixpoint next_data (evs : list event) : option (bytes * bool * berr * list event) :=
   match evs with
-  | EData g _ r _ :: rest => Some (g, r, rest)
+  | EData g tm r _ :: rest => Some (g, is_eof tm, r, rest)
   | _ :: rest => next_data rest
   | [] => None
   end.
@@ -232,8 +232,10 @@ Fixpoint c16_walk (calls : list call) (results : list (list res)) (evs : list ev
       let body := List.concat parts in
       is_nil r0 &&
       match next_data evs with
-      | Some (got, verdict, evs') =>
-          (negb (cr_only_in_crlf body) || bytes_eqb got (normalise body))
+      | Some (got, whole, verdict, evs') =>
+          (* a backend that stopped reading before the end saw a prefix of the message *)
+          (negb (cr_only_in_crlf body)
+           || (if whole then bytes_eqb got (normalise body) else is_prefix got (normalise body)))
           && match closeres with
              | c1 :: _ => match verdict with BNil => is_nil c1 | _ => negb (is_nil c1) && negb (is_local c1) end
              | [] => false
